@@ -29,6 +29,16 @@
 //!
 //! `#dup m<k>` evaluates the `duplicate()` part of C13 on model k, `#twin e<a> e<b>` the order-independence part of C14.
 //!
+//! ## Direct oracles outside the task's list
+//!
+//! C17 (`--prop C17` or no `--prop`): every `setver f v` answers `ok` exactly when `check_version_compatibility(v)` of the file
+//! listed nothing just before, the mask returned by the check (`setver` and `compat`) contains `v` exactly in that case, and
+//! after `ok` the file reports `v` - also when `v` is the version the file already has.  The generator issues `compat` /
+//! `setver` with the file's own version at the end of every history and right after a lenient `load`, always for files whose
+//! content is not compatible with their own version (statistics `c17.*`, `oracle.c17_*`).  C14 statistics `sort.*`: how many
+//! of the sorted containers order some children by content alone (no name / INDEX / DEFINITION-REF / DEST) and hold
+//! reorderable, not yet sorted containers inside those children (kind `sort` builds such shapes in half of its histories).
+//!
 //! ## Rare triggers
 //!
 //! Triggers of known defect families are generated only in histories flagged for them (0.7 % - 1.5 % of the histories
@@ -715,6 +725,43 @@ fn sort_metamorphic(top: &Element) -> Option<(String, String, bool)> {
     t1.sort();
     t2.sort();
     Some((t1.serialize(), t2.serialize(), defref))
+}
+
+/// statistics of a subtree that is about to be sorted (C14): (containers whose children include at least two siblings of the
+/// same kind that `Element::cmp` can only order by CONTENT - no item name, no INDEX, no DEFINITION-REF, no DEST -, how many of
+/// these have such a sibling with a reorderable container of at least two children somewhere inside it, how many of those
+/// nested containers are not in sorted order at this moment).  These are the places where the order in which `sort`
+/// descends (children first or parents first) is observable.
+fn content_compared_stats(top: &Element) -> (u64, u64, u64) {
+    let reorderable = |e: &Element| !e.element_type().is_ordered() && matches!(e.content_type(), ContentType::Elements);
+    let keyless = |e: &Element| {
+        e.item_name().is_none() && e.get_sub_element(ElementName::Index).is_none() && e.get_sub_element(ElementName::DefinitionRef).is_none() && e.attribute_value(AttributeName::Dest).is_none()
+    };
+    let unsorted = |d: &Element| -> bool {
+        let t = d.element_type();
+        let kids: Vec<(Vec<usize>, Element)> = d.sub_elements().filter_map(|c| t.find_sub_element(c.element_name(), u32::MAX).map(|(_, ix)| (ix, c))).collect();
+        kids.windows(2).any(|w| w[0].0.cmp(&w[1].0).then_with(|| w[0].1.cmp(&w[1].1)) == std::cmp::Ordering::Greater)
+    };
+    let (mut cc, mut nested, mut nested_unsorted) = (0u64, 0u64, 0u64);
+    for (_, c) in top.elements_dfs() {
+        if !reorderable(&c) {
+            continue;
+        }
+        let kids: Vec<Element> = c.sub_elements().filter(|k| keyless(k)).collect();
+        let group: Vec<&Element> = kids.iter().filter(|k| kids.iter().filter(|o| o.element_name() == k.element_name()).count() >= 2).collect();
+        if group.is_empty() {
+            continue;
+        }
+        cc += 1;
+        let inner: Vec<Element> = group.iter().flat_map(|k| k.elements_dfs().map(|x| x.1)).filter(|d| reorderable(d) && d.sub_elements().nth(1).is_some()).collect();
+        if !inner.is_empty() {
+            nested += 1;
+            if inner.iter().any(|d| unsorted(d)) {
+                nested_unsorted += 1;
+            }
+        }
+    }
+    (cc, nested, nested_unsorted)
 }
 
 fn first_difference(a: &str, b: &str) -> (String, String) {
@@ -1531,6 +1578,24 @@ impl Checker {
             if self.on("C12") && (ans == "panic" || ans == "timeout" || ans == "err ParentElementLocked") {
                 out.push(Failure::new("C12", if ans == "panic" { "panic" } else { "locked" }, format!("`{req}` answers `{ans}`")));
             }
+            if verb == "compat" && self.on("C17") {
+                // "the returned version mask contains the target version exactly when nothing is listed" (any target, also the
+                // file's own version)
+                let a: Vec<&str> = ans.split(' ').collect();
+                if let (Some(v), true, Some(mask)) = (words.get(2).and_then(|v| v.parse::<u32>().ok()), a.len() == 3 && a[0] == "ok", a.get(1).and_then(|m| m.parse::<u32>().ok())) {
+                    *self.counts.entry("oracle.c17_compat_checked").or_insert(0) += 1;
+                    let own = self.w.h_file(words[1]).is_some_and(|f| f.version() as u32 == v);
+                    if own {
+                        *self.counts.entry("oracle.c17_compat_with_current_version").or_insert(0) += 1;
+                        if a[2] != "-" {
+                            *self.counts.entry("oracle.c17_compat_with_current_version_lists_something").or_insert(0) += 1;
+                        }
+                    }
+                    if (mask & v != 0) != (a[2] == "-") {
+                        out.push(Failure::new("C17", "mask-iff-compatible", format!("`{req}`: the returned mask {mask:#x} {} the target although the check lists `{}`", if mask & v != 0 { "contains" } else { "lacks" }, a[2].chars().take(80).collect::<String>())));
+                    }
+                }
+            }
             return (ans, self.filter(out));
         }
         if verb == "reset" {
@@ -1593,7 +1658,35 @@ impl Checker {
         // copy in which every sub-element was sorted on its own first (that copy is a permutation of reorderable siblings)
         let sort_meta: Option<(String, String, bool)> = if (verb == "sort" || verb == "sortm") && self.on("C14") {
             let top = if verb == "sort" { handles.first().cloned() } else { self.w.h_model(words.get(1).unwrap_or(&"")).map(|m| m.1.root_element()) };
+            if let Some(t) = &top {
+                // input distribution: how many of the sorted containers order some of their children by content alone, and
+                // how many of those children hold reorderable (and at this moment unsorted) containers of their own
+                let (cc, nested, unsorted) = content_compared_stats(t);
+                *self.counts.entry("sort.containers_with_content_compared_siblings").or_insert(0) += cc;
+                *self.counts.entry("sort.containers_with_content_compared_siblings_holding_reorderable_children").or_insert(0) += nested;
+                *self.counts.entry("sort.containers_with_content_compared_siblings_holding_unsorted_reorderable_children").or_insert(0) += unsorted;
+                if unsorted > 0 {
+                    *self.counts.entry("sort.requests_on_content_compared_siblings_with_unsorted_children").or_insert(0) += 1;
+                }
+            }
             top.and_then(|t| sort_metamorphic(&t))
+        } else {
+            None
+        };
+        // C17 ("changing a file's version succeeds exactly when the check lists no incompatibility, and the returned mask
+        // contains the target exactly in that case"), evaluated directly on the library for every `setver` - also when the
+        // target is the version the file already has
+        let setver_pre: Option<(ArxmlFile, AutosarVersion, usize, u32, AutosarVersion)> = if verb == "setver" && self.on("C17") {
+            match (self.w.h_file(words.get(1).unwrap_or(&"")), words.get(2).and_then(|v| v.parse::<u32>().ok()).and_then(AutosarVersion::from_val)) {
+                (Some(f), Some(v)) => quiet(|| {
+                    let (errs, mask) = f.check_version_compatibility(v);
+                    let n = errs.len();
+                    drop(errs);
+                    let old = f.version();
+                    (f, v, n, mask, old)
+                }),
+                _ => None,
+            }
         } else {
             None
         };
@@ -1790,6 +1883,26 @@ impl Checker {
                         out.push(Failure::new("C14", "order-dependent-subtree", msg));
                     }
                 }
+            }
+        }
+        if let Some((f, v, n_errs, mask, old)) = &setver_pre {
+            *self.counts.entry("oracle.c17_setver_checked").or_insert(0) += 1;
+            let same = old == v;
+            if same {
+                *self.counts.entry("oracle.c17_setver_to_current_version").or_insert(0) += 1;
+                if *n_errs > 0 {
+                    *self.counts.entry("oracle.c17_setver_to_current_version_of_incompatible_file").or_insert(0) += 1;
+                }
+            }
+            let where_ = format!("`{req}` (file version before: {old:?}, target {v:?}{})", if same { ", the version the file already has" } else { "" });
+            if (ans == "ok") != (*n_errs == 0) && (ans == "ok" || ans == "err") {
+                out.push(Failure::new("C17", "setver-iff-compatible", format!("{where_} answers `{ans}` although check_version_compatibility lists {n_errs} incompatibilities for that target (mask {mask:#x})")));
+            }
+            if (mask & (*v as u32) != 0) != (*n_errs == 0) {
+                out.push(Failure::new("C17", "mask-iff-compatible", format!("{where_}: the returned mask {mask:#x} {} the target although the check lists {n_errs} incompatibilities", if mask & (*v as u32) != 0 { "contains" } else { "lacks" })));
+            }
+            if ans == "ok" && f.version() != *v {
+                out.push(Failure::new("C17", "setver-version", format!("{where_} answers ok but the file reports {:?}", f.version())));
             }
         }
         if c13 {
@@ -2129,8 +2242,11 @@ struct Gen {
     allow_stale_file: bool,
     allow_root_attr: bool,
     allow_split_move: bool,
+    /// template parts built without a `dump` after every request (one `dump` at their end instead)
+    quiet_build: bool,
 }
 
+#[derive(Clone)]
 enum Spec {
     Named(ElementName, &'static str, Vec<Spec>),
     Plain(ElementName, Vec<Spec>),
@@ -2181,7 +2297,7 @@ impl Gen {
     fn m(&mut self, r: String) -> String {
         let a = self.req(r);
         self.nmut += 1;
-        if !self.ck.w.models.is_empty() && (!self.thorough || self.nmut % 10 == 0) {
+        if !self.quiet_build && !self.ck.w.models.is_empty() && (!self.thorough || self.nmut % 10 == 0) {
             self.req("dump".to_string());
         }
         a
@@ -3050,7 +3166,11 @@ impl Gen {
         let Ok(Some(text)) = made else { return };
         let j = self.ck.w.files.len();
         let strict = !relabel && self.rng.chance(1, 2);
-        self.m(format!("load m0 {} {} {}", hx(&format!("l{j}.arxml")), strict as u8, hx(&text)));
+        let a = self.m(format!("load m0 {} {} {}", hx(&format!("l{j}.arxml")), strict as u8, hx(&text)));
+        if !strict && a.starts_with("ok") && j < self.ck.w.files.len() {
+            // a lenient load may have accepted content that the label of the document does not permit
+            self.diagonal_version_requests(j, 4, 2);
+        }
     }
     fn op_mkfile(&mut self) {
         let j = self.ck.w.files.len();
@@ -3151,6 +3271,7 @@ impl Gen {
         // version compatibility (C17): every file against a few target versions; sometimes the version is changed
         for k in 0..self.ck.w.models.len() {
             for f in self.model_files(k) {
+                self.diagonal_version_requests(f, 3, 4);
                 for _ in 0..3 {
                     let bit = if self.rng.chance(1, 3) { [0usize, 1, 2, 5, 9][self.rng.below(5)] } else { self.rng.below(21) };
                     self.req(format!("compat f{f} {}", 1u32 << bit));
@@ -3161,6 +3282,25 @@ impl Gen {
             }
         }
         self.req("dump".to_string());
+    }
+
+    /// C17 on the diagonal of the version pairs: `compat` / `setver` with the version the file already has.  A file that was
+    /// loaded leniently may hold content that its own label does not permit; then the check lists something for the file's
+    /// own version and `setver` to that version must fail like any other.  Always issued for such files, for the others with
+    /// probability 1/`c` (`compat`) and 1/(`c`*`s`) (`setver`).
+    fn diagonal_version_requests(&mut self, f: usize, c: u64, s: u64) {
+        let fo = self.ck.w.files[f].clone();
+        let own = fo.version() as u32;
+        let dirty = quiet(|| !fo.check_version_compatibility(fo.version()).0.is_empty()).unwrap_or(false);
+        self.stat(format!("c17.files_{}_with_own_version", if dirty { "incompatible" } else { "compatible" }));
+        if dirty || self.rng.chance(1, c) {
+            self.req(format!("compat f{f} {own}"));
+            self.stat(format!("c17.compat_own_version.{}", if dirty { "incompatible_file" } else { "compatible_file" }));
+            if dirty || self.rng.chance(1, s) {
+                let a = self.m(format!("setver f{f} {own}"));
+                self.stat(format!("c17.setver_own_version.{}.{}", if dirty { "incompatible_file" } else { "compatible_file" }, if a.starts_with("ok") { "ok" } else { "err" }));
+            }
+        }
     }
 
     fn nrandom(&mut self) -> usize {
@@ -3274,6 +3414,75 @@ impl Gen {
         *self.stats.entry("final.identifiables".to_string()).or_insert(0) += self.ck.live.iter().flat_map(|l| l.iter()).filter(|i| self.ck.w.elems[**i].is_identifiable()).count() as u64;
     }
 
+    /// kind `sort`: one or two package elements that hold 2-3 siblings without SHORT-NAME, INDEX, DEFINITION-REF and DEST
+    /// (`Element::cmp` orders them by content) each of which holds a reorderable container with 2-3 children drawn from a
+    /// small pool (so that the lists overlap and their order decides the comparison): INCLUDED-DATA-TYPE-SETs with
+    /// DATA-TYPE-REFS, CAN-TP-CONNECTIONs with RECEIVER-REFS, SUB-ELEMENT-MAPPINGs with FIRST-ELEMENTS,
+    /// ROLE-BASED-DATA-ASSIGNMENTs with POST-BUILD-VARIANT-CONDITIONS.  `build(.., shuffle = true)` inserts the children of
+    /// every level in a random order.
+    fn content_compared_specs(&mut self) -> Vec<Spec> {
+        use ElementName::{
+            ApplicationSwComponentType, AssignedDatas, BswInternalBehavior, BswModuleDescription, BswServiceDependency, CanTpConfig, CanTpConnection, DataMappings, DataPrototypeMapping, DataTypeRef, DataTypeRefs, FirstElements,
+            ImplementationDataTypeSubElementRef, IncludedDataTypeSet, IncludedDataTypeSets, InternalBehaviors, LiteralPrefix, MatchingCriterionRef, PortInterfaceMappingSet, PortInterfaceMappings, PostBuildVariantCondition,
+            PostBuildVariantConditions, ReceiverRef, ReceiverRefs, Role, RoleBasedDataAssignment, ServiceDependencys, ShortLabel, SubElementMapping, SubElementMappings, SwcInternalBehavior, TpConnections,
+            VariableAndParameterInterfaceMapping, VariationPoint,
+        };
+        const PATHS: [&str; 5] = ["/t/A", "/t/B", "/t/C", "/t/D", "/t/a10"];
+        const LABELS: [&str; 5] = ["A", "B", "C", "D", "a10"];
+        let mut shapes: Vec<usize> = vec![0, 1, 2, 3];
+        let n = if self.rng.chance(1, 4) { 2 } else { 1 };
+        let mut out = vec![];
+        for _ in 0..n {
+            let shape = shapes.remove(self.rng.below(shapes.len()));
+            // the inner lists: 2-3 siblings, each with 2-3 distinct entries of the pool
+            let nsib = if self.rng.chance(1, 3) { 3 } else { 2 };
+            let mut lists: Vec<Vec<usize>> = vec![];
+            for _ in 0..nsib {
+                let mut pool: Vec<usize> = (0..PATHS.len()).collect();
+                let len = 2 + self.rng.below(2);
+                lists.push((0..len).map(|_| pool.remove(self.rng.below(pool.len()))).collect());
+            }
+            self.stat(format!("tpl.content_compared_shape_{shape}"));
+            let inner = |l: &Vec<usize>, f: &dyn Fn(usize) -> Spec| -> Vec<Spec> { l.iter().map(|i| f(*i)).collect() };
+            out.push(match shape {
+                0 => Spec::Named(ApplicationSwComponentType, "cc_swc", vec![Spec::Plain(InternalBehaviors, vec![Spec::Named(SwcInternalBehavior, "ib", vec![Spec::Plain(
+                    IncludedDataTypeSets,
+                    lists.iter().map(|l| Spec::Plain(IncludedDataTypeSet, vec![Spec::Plain(DataTypeRefs, inner(l, &|i| Spec::Ref(DataTypeRef, PATHS[i], EnumItem::ImplementationDataType))), Spec::Leaf(LiteralPrefix, "P_")])).collect(),
+                )])])]),
+                1 => Spec::Named(CanTpConfig, "cc_tp", vec![Spec::Plain(
+                    TpConnections,
+                    lists.iter().map(|l| Spec::Plain(CanTpConnection, vec![Spec::Plain(ReceiverRefs, inner(l, &|i| Spec::Ref(ReceiverRef, PATHS[i], EnumItem::CanTpNode)))])).collect(),
+                )]),
+                2 => Spec::Named(PortInterfaceMappingSet, "cc_pims", vec![Spec::Plain(PortInterfaceMappings, vec![Spec::Named(VariableAndParameterInterfaceMapping, "vm", vec![Spec::Plain(DataMappings, vec![Spec::Plain(
+                    DataPrototypeMapping,
+                    vec![Spec::Plain(
+                        SubElementMappings,
+                        lists
+                            .iter()
+                            .map(|l| Spec::Plain(SubElementMapping, vec![Spec::Plain(FirstElements, inner(l, &|i| Spec::Plain(ImplementationDataTypeSubElementRef, vec![Spec::Plain(VariationPoint, vec![Spec::Leaf(ShortLabel, LABELS[i])])])))]))
+                            .collect(),
+                    )],
+                )])])])]),
+                _ => Spec::Named(BswModuleDescription, "cc_bsw", vec![Spec::Plain(InternalBehaviors, vec![Spec::Named(BswInternalBehavior, "ib", vec![Spec::Plain(ServiceDependencys, vec![Spec::Plain(
+                    BswServiceDependency,
+                    vec![Spec::Plain(
+                        AssignedDatas,
+                        lists
+                            .iter()
+                            .map(|l| {
+                                Spec::Plain(RoleBasedDataAssignment, vec![
+                                    Spec::Leaf(Role, "r"),
+                                    Spec::Plain(VariationPoint, vec![Spec::Plain(PostBuildVariantConditions, inner(l, &|i| Spec::Plain(PostBuildVariantCondition, vec![Spec::Ref(MatchingCriterionRef, PATHS[i], EnumItem::PostBuildVariantCriterion)])))]),
+                                ])
+                            })
+                            .collect(),
+                    )],
+                )])])])]),
+            });
+        }
+        out
+    }
+
     /// kind `sort`: the same siblings built twice in different insertion orders, sorted, compared
     fn twins(&mut self, root: usize, _pkgs: &[usize]) {
         use ElementName::{ArPackage, ArPackages, Category, Containers, DefinitionRef, EcuInstance, EcucContainerValue, EcucModuleConfigurationValues, EcucNumericalParamValue, Elements, ISignal, Index, Length, ParameterValues, System, Value};
@@ -3304,12 +3513,21 @@ impl Gen {
                 ])]),
             ]
         };
+        // siblings that are compared by their CONTENT, with reorderable containers inside (C14: the result of `sort` must not
+        // depend on whether these inner containers were already sorted when their parents were compared)
+        let cc = if self.rng.chance(1, 2) { self.content_compared_specs() } else { vec![] };
         let mut tops = vec![];
         for name in ["tw1", "tw2"] {
             let Some(p) = self.named(pkgs, ArPackage, name) else { return };
             let Some(els) = self.create(p, Elements) else { return };
             let specs = mk();
             self.build(els, &specs, true);
+            if !cc.is_empty() {
+                self.quiet_build = true;
+                self.build(els, &cc, true);
+                self.quiet_build = false;
+                self.req("dump".to_string());
+            }
             // equal names in different parents: sub-packages a2 / a10 / a1 in both
             let sub = self.create(p, ArPackages);
             if let Some(sub) = sub {
@@ -3426,6 +3644,7 @@ fn spawn_history(seed: u64, kind: Kind, thorough: bool, prop: Option<String>) ->
             allow_stale_file: f2,
             allow_root_attr: f3,
             allow_split_move: f4,
+            quiet_build: false,
         };
         let r = catch_unwind(AssertUnwindSafe(|| g.history()));
         let mut o = sh2.lock().unwrap();
